@@ -321,6 +321,11 @@ def run(ctx):
     for _ in range(40 if quick else 400):
         t = multiway_conflict(rng)
         cases += [(t, None, False, False)] * 4        # asked four times: each time the actions come in another order
+    # degenerate grammars: cycles through the start symbol, unit and empty productions (crashes of the dependency's
+    # construction on them are recorded findings F25/F27 and attributed by the frame that raised the panic)
+    from .c14 import grammar_cases
+    for t in grammar_cases(rng, 60 if quick else 600):
+        cases.append((t, None, False, False))
     impl = ctx.run_impl_par("lalr", [hx(t.encode()) for t, _, _, _ in cases], timeout=900, isolate=True)
     model = ctx.run_model_par("lalr", [l.split(" ", 1)[1] if " " in l else "nt=0 nnt=0 start=0 prods= levels=" for l in impl])
     stats = {"accepted": 0, "rejected_conflict": 0, "rejected_earlier": 0, "tables_isomorphic_to_reference": 0, "tables_well_formed": 0, "sentences_compared": 0, "expressions_compared": 0, "known_order_dependence": 0}
